@@ -46,8 +46,36 @@ def gen_string_body(rng, maxlen=8, key=False):
     return out
 
 
+def midpoint_number(rng):
+    """the exact decimal expansion of the midpoint between two adjacent doubles (a tie: round to even), or that expansion with a
+    digit far beyond the 17th, the 64th, the 100th changed - the correctly rounded result then depends on every digit of the
+    text (round-7 seed C01-13: a conversion that drops the digits after the 64th)"""
+    import struct, decimal
+    decimal.getcontext().prec = 2000
+    bits = rng.choice([0x3FF0000000000000, 0x3FF0000000000001, 0x400921FB54442D18, 0x3FB999999999999A, 0x4340000000000000,
+                       rng.randrange(0x3F00000000000000, 0x4400000000000000)])
+    x = struct.unpack("<d", struct.pack("<Q", bits))[0]
+    y = struct.unpack("<d", struct.pack("<Q", bits + 1))[0]
+    m = (decimal.Decimal(x) + decimal.Decimal(y)) / 2
+    t = format(m, "f")
+    if "." not in t:
+        t += ".0"
+    k = rng.random()
+    if k < 0.25:
+        pass                                            # the tie itself
+    elif k < 0.6:
+        t = t + "0" * rng.choice([0, 3, 20, 40, 80]) + rng.choice("19")         # just above
+    else:
+        # just below: the last digit lowered, then nines
+        i = len(t) - 1
+        t = t[:i] + str(int(t[i]) - 1 if t[i] != "0" else 0) + "9" * rng.choice([1, 5, 30, 70])
+    return (("-" if rng.chance(0.3) else "") + t).encode()
+
+
 def gen_number(rng):
     k = rng.random()
+    if k < 0.04:
+        return midpoint_number(rng)
     if k < 0.25:
         s = rng.choice(["0", "-0", "1", "-1", "7", "10", "123", "2147483647", "-2147483648", "9223372036854775807",
                         "9223372036854775808", "-9223372036854775808", "18446744073709551615", "4294967296"])
@@ -141,6 +169,9 @@ def escape_torture(rng):
         elif k < 0.4:
             del h[rng.randrange(4)]
         unit = b"\\u" + bytes(h)
+        if rng.chance(0.12):
+            # what a library number parser would accept where four hex digits are required: 0x / 0X prefix, sign, blank
+            unit = b"\\u" + rng.choice([b"0x41", b"0X1f", b"0x4g", b"+041", b"-041", b" 041", b"0x00", b"00x4"])
         if rng.chance(0.1):
             unit = rng.choice([b"u" + bytes(h), b"\\" + bytes(h), b"\\U" + bytes(h)])
         out += unit
